@@ -286,9 +286,10 @@ func Load(ctx context.Context, wd string, env []string, tags string, patterns []
 				ec.add(notePosition(fset.Position(obj.Pos()), fmt.Errorf("%v is not a provider set", obj)))
 				continue
 			}
-			// pset.Name may not equal name, since it could be an alias to
-			// another provider set.
-			id := ProviderSetID{ImportPath: pset.PkgPath, VarName: name}
+			// Neither pset.VarName nor pset.PkgPath need describe this variable,
+			// since it could be an alias to another provider set, possibly one
+			// of another package.
+			id := ProviderSetID{ImportPath: pkg.PkgPath, VarName: name}
 			info.Sets[id] = pset
 		}
 		for _, f := range pkg.Syntax {
